@@ -1191,7 +1191,10 @@ fn c09_walk(rng: &mut Rng, steps: usize) {
             },
             1 => { let sid = x.new_stream(tx, &mut sids); streams.push((sid, St::Created)); }
             2 | 3 => {
-                let idle: Vec<u32> = streams.iter().filter(|(s, st)| *st == St::Created && !busy(*s, &pending)).map(|(s, _)| *s).collect();
+                // one time in four a stream that is already publishing / playing is RE-PURPOSED without a close or delete in between
+                // (the accepted request then decides key and direction: media must follow the NEW request)
+                let any_state = rng.below(4) == 0;
+                let idle: Vec<u32> = streams.iter().filter(|(s, st)| (any_state || *st == St::Created) && !busy(*s, &pending)).map(|(s, _)| *s).collect();
                 if idle.is_empty() { continue; }
                 let sid = rng.pick(&idle); let key = format!("key{}", tx); let is_pub = rng.below(2) == 0;
                 let r = if is_pub { x.publish(sid, &key) } else { x.play(sid, &key) };
@@ -1510,8 +1513,51 @@ fn c10_strict() {
     let r = y.req_conn("live"); let (t, _, _) = y.expect_cmd(&r, "connect", &[0], "request_connection");
     let r = y.result(t + 0.5, &[]); y.expect_unknown_tx(&r, t + 0.5, &format!("[strict] _result for transaction id {} (never used; the pending connect is {})", t + 0.5, t));
 }
+// several transactions outstanding at once (the single-transaction model of c10_walk never has two): each answer advances
+// exactly the transaction it answers, and the state gates requests and media whatever order the answers arrive in
+fn c10_multi() {
+    // two connect requests outstanding, one accepted, the other rejected afterwards: the session stays connected
+    for first_wins in [true, false] {
+        let mut x = Cli::new();
+        let r = x.req_conn("a"); let (t1, _, _) = x.expect_cmd(&r, "connect", &[0], "request_connection(a)");
+        let r = x.req_conn("b"); let (t2, _, _) = x.expect_cmd(&r, "connect", &[0], "second request_connection(b) while the first is unanswered");
+        if t1 == t2 { x.bad(format!("two outstanding connect requests share transaction id {}", t1)); }
+        let (win, lose) = if first_wins { (t1, t2) } else { (t2, t1) };
+        let r = x.result(win, &[]); if r.err.is_some() || r.ev != vec![ClientSessionEvent::ConnectionRequestAccepted] { x.bad(format!("connect result for transaction {}: {}", win, r.show())); }
+        let r = x.error(lose, "no"); if r.err.is_some() || !r.out.is_empty() { x.bad(format!("_error for the other connect transaction {}: nothing may be emitted, got {}", lose, r.show())); }
+        let r = x.req_conn("c"); x.expect_refused(r, "request_connection while connected (after the other outstanding connect was rejected)");
+        let r = x.req_play("k"); let _ = x.expect_cmd(&r, "createStream", &[0], "request_playback while connected (after the other outstanding connect was rejected)");
+    }
+    // publish and play requested back to back; the publish workflow completes, THEN the second createStream result arrives:
+    // the session is no longer publishing, so publish_* must be refused (and media for the new active stream is raised)
+    {
+        let mut x = Cli::new();
+        let r = x.req_conn("live"); let (t, _, _) = x.expect_cmd(&r, "connect", &[0], "request_connection"); let _ = x.result(t, &[]);
+        let r = x.req_pub("k1"); let (ta, _, _) = x.expect_cmd(&r, "createStream", &[0], "request_publishing");
+        let r = x.req_play("k2"); let (tb, _, _) = x.expect_cmd(&r, "createStream", &[0], "request_playback right after request_publishing");
+        let r = x.result(ta, &[A::N(1.0)]); let _ = x.expect_cmd(&r, "publish", &[1], "createStream result for the publish request");
+        let r = x.on_status("NetStream.Publish.Start", 1); if r.err.is_some() || r.ev != vec![ClientSessionEvent::PublishRequestAccepted] { x.bad(format!("onStatus(Publish.Start): {}", r.show())); }
+        let (r, _, _) = x.pub_media(1); if r.err.is_some() || r.out.len() != 1 || r.out[0].msid != 1 { x.bad(format!("publish_video_data while publishing on stream 1: {}", r.show())); }
+        let r = x.result(tb, &[A::N(2.0)]); let _ = x.expect_cmd(&r, "play", &[2], "createStream result for the play request (arriving while publishing)");
+        for k in 0..3u8 { let (r, _, _) = x.pub_media(k); x.expect_refused(r, &format!("publish_* (kind {}) while playback is requested (the session left Publishing when the play command went out)", k)); }
+        x.expect_media_in(2, true, &[0, 1], "while playback is requested on stream 2");
+        x.expect_media_in(1, false, &[0, 1], "for the former publish stream 1 while playback is requested on stream 2");
+    }
+    // a late connect `_result` while publishing must not re-open the media gate for anything else
+    {
+        let mut x = Cli::new();
+        let r = x.req_conn("a"); let (t1, _, _) = x.expect_cmd(&r, "connect", &[0], "request_connection(a)");
+        let r = x.req_conn("b"); let (t2, _, _) = x.expect_cmd(&r, "connect", &[0], "second request_connection(b)");
+        let _ = x.result(t1, &[]);
+        let r = x.req_play("k"); let (tc, _, _) = x.expect_cmd(&r, "createStream", &[0], "request_playback");
+        let r = x.result(tc, &[A::N(3.0)]); let _ = x.expect_cmd(&r, "play", &[3], "createStream result");
+        let _ = x.result(t2, &[]);      // the second connect is answered late: back to Connected
+        for k in 0..3u8 { let (r, _, _) = x.pub_media(k); x.expect_refused(r, &format!("publish_* (kind {}) after a late connect result", k)); }
+    }
+}
 fn mode_c10(seed: u64) {
     c10_scripted();
+    c10_multi();
     if strict() { c10_strict(); }
     let mut rng = Rng(seed ^ 0xC10C10);
     for _ in 0..3000 { c10_walk(&mut rng, 80); }
